@@ -140,6 +140,12 @@ class Session:
         import usim
         install()
         prev = getattr(_tls, 'session', None)
+        if prev is None:
+            # Left-overs of earlier executions (suspended coroutines of a failed or deadlocked
+            # simulation become garbage only when their owner lets go of them, i.e. after the
+            # forced collection at the end of that run) must be finalised *before* this
+            # simulation starts: their finalisers talk to whatever loop is current.
+            gc.collect()
         _tls.session = self
         self.armed = True
         try:
